@@ -308,24 +308,24 @@ theorem encodeEvents_noNL (c : Cfg) : ∀ (evs : List Ev) (tr : List RVec), ∀ 
     intro tr l hl
     cases e with
     | tick n d =>
-      simp only [encodeEvents, List.mem_cons] at hl
+      simp only [encodeEvents, encodeStep, List.mem_append, List.mem_cons, List.not_mem_nil, or_false] at hl
       rcases hl with rfl | hl
       · exact noNL_timeLine _
       · exact ih _ l hl
     | commit vals =>
-      simp only [encodeEvents, List.mem_append] at hl
+      simp only [encodeEvents, encodeStep, List.mem_append] at hl
       rcases hl with hl | hl
       · exact commitGo_noNL _ _ _ _ l hl
       · exact ih _ l hl
     | clock j b =>
-      simp only [encodeEvents, List.mem_append] at hl
+      simp only [encodeEvents, encodeStep, List.mem_append] at hl
       rcases hl with hl | hl
       · split at hl
         · simp at hl; subst hl; exact noNL_scalarLine _ _ (noNL_ident _)
         · simp at hl
       · exact ih _ l hl
     | reset j b =>
-      simp only [encodeEvents, List.mem_append] at hl
+      simp only [encodeEvents, encodeStep, List.mem_append] at hl
       rcases hl with hl | hl
       · split at hl
         · simp at hl; subst hl; exact noNL_scalarLine _ _ (noNL_ident _)
